@@ -19,7 +19,8 @@
            | (13)        let the syncer run (successful I/O) until nothing is pending
     Observation: one history per incarnation (or ((-1)) panic, ((-2)) no quiescence); entries in
     real order:
-      (0 count (oldest blocks) (found ...) (oldest blocks))  restored; state read; allocator answers; list's view
+      (0 count (oldest blocks) (found ...) (oldest blocks) nold)  restored; state read; allocator answers; list's view;
+                         number of restored blocks the old/current/new map reports as old
       (1 r x)            PushBack: r = 0 ok (x = location), 1 refused by the list, 2 allocator failed
       (2)                PopFront
       (3 index size)     BlockList.Put (k-th of this incarnation)
@@ -35,7 +36,7 @@
       (20 r p)           both loops blocked again: what each waits for
       (32 key fmcode nmissing code bytes)   read-back of one key
     block = (location writeOffset (seed ...)); seeds are canonical ids. *)
-From BBS Require Import Common.Sx Persist.PBL Persist.Syncer.
+From BBS Require Import Common.Sx Persist.PBL Persist.Syncer Persist.Shutdown.
 Open Scope Z_scope.
 
 Definition tag (s : sx) : Z := sx_Z (sx_nth s 0).
@@ -493,7 +494,11 @@ Definition replay_entry (cfg : config) (bs : Z) (x : xst) (e : sx) : option xst 
   end.
 
 (** A new incarnation: NewPersistentBlockList from the state on the medium. *)
-Definition replay_restore (cfg : config) (bs : Z) (st0 : pstate) (now : N) (e : sx) : option xst :=
+Definition policy_of (c : sx) : policy :=
+  if sx_bool (sx_nth c 4) then ac_policy (sx_nat (sx_nth c 2))
+  else cas_policy (sx_nat (sx_nth c 2)) (sx_nat (sx_nth c 3)).
+
+Definition replay_restore (c : sx) (cfg : config) (bs : Z) (st0 : pstate) (now : N) (e : sx) : option xst :=
   let rd := dec_state bs (sx_nth (sx_nth e 2) 0) (sx_nth (sx_nth e 2) 1) in
   if negb (Z.eqb (tag e) 0) || negb (pstate_eqb rd st0) then None
   else
@@ -502,7 +507,9 @@ Definition replay_restore (cfg : config) (bs : Z) (st0 : pstate) (now : N) (e : 
     match get_persistent_state p with
     | Ok (p', view) =>
         if Nat.eqb n (sx_nat (sx_nth e 1)) &&
-           pstate_eqb view (dec_state bs (sx_nth (sx_nth e 4) 0) (sx_nth (sx_nth e 4) 1))
+           pstate_eqb view (dec_state bs (sx_nth (sx_nth e 4) 0) (sx_nth (sx_nth e 4) 1)) &&
+           (* the layout NewOldCurrentNewLocationBlobMap gives the restored blocks *)
+           Nat.eqb (l_old (ocn_new (policy_of c) (sx_nat (sx_nth c 1)) n)) (sx_nat (sx_nth e 5))
         then Some (mkX (init_sys p' now) st0 false 0 0 0 0) else None
     | Panic => None
     end.
@@ -518,18 +525,18 @@ Fixpoint replay_entries (cfg : config) (bs : Z) (pos : nat) (x : xst) (es : list
       end
   end.
 
-Fixpoint replay_hists (cfg : config) (bs : Z) (inc : nat) (st0 : pstate) (now : N) (hs : list sx) : list Z :=
+Fixpoint replay_hists (c : sx) (cfg : config) (bs : Z) (inc : nat) (st0 : pstate) (now : N) (hs : list sx) : list Z :=
   match hs with
   | [] => []
   | h :: hs' =>
       match sx_list h with
       | [] => [Z.of_nat inc; -1; -1]
       | e0 :: es =>
-          match replay_restore cfg bs st0 now e0 with
+          match replay_restore c cfg bs st0 now e0 with
           | None => [Z.of_nat inc; 0; 0]
           | Some x0 =>
               match replay_entries cfg bs 1 x0 es with
-              | (x1, []) => replay_hists cfg bs (S inc) (x_state x1) (s_now (x_sys x1)) hs'
+              | (x1, []) => replay_hists c cfg bs (S inc) (x_state x1) (s_now (x_sys x1)) hs'
               | (_, bad) => Z.of_nat inc :: bad
               end
           end
@@ -540,7 +547,7 @@ Definition init_pstate : pstate := (1%N, []).
 
 Definition replay03 (inp obs : sx) : list Z :=
   let c := sx_nth inp 0 in
-  replay_hists (mkConfig (sx_N (sx_nth c 9)) (sx_N (sx_nth c 10))) (sx_Z (sx_nth c 0)) 0 init_pstate 0%N (sx_list obs).
+  replay_hists c (mkConfig (sx_N (sx_nth c 9)) (sx_N (sx_nth c 10))) (sx_Z (sx_nth c 0)) 0 init_pstate 0%N (sx_list obs).
 
 Definition judge03 (inp obs : sx) : sx :=
   let v := mon03 inp obs in
